@@ -4,7 +4,6 @@
 -/
 import CosetProofs.Cbor.ParseAppend
 import CosetModel.Api
-import CosetProofs.Ties
 namespace Coset.Props.C13
 open Coset Coset.Cbor
 
@@ -132,14 +131,6 @@ example : fromSlice CoseSign1.fromValue ([0x84, 0x40, 0xa0, 0xf6, 0x40] ++ [0x00
 example : (fromSlice CoseSign1.fromValue ([0x84, 0x40, 0xa0, 0xf6, 0x40].take 4)).isOk = false := by decide +kernel
 
 
-/-! ### ties to the source text (regenerated on every run, compared in the kernel with the transcribed tree) -/
-/-- no type overrides a provided method of `CborSerializable` / `TaggedCborSerializable`. -/
-theorem tie_serializable_impls : Coset.Gen.serializableImpls = Coset.Pinned.serializableImpls := Coset.Ties.serializable_impls
-/-- the bodies of `from_slice`, `to_vec`, `from_tagged_slice`, `to_tagged_vec` and `read_to_value` are the ones the model transcribes. -/
-theorem tie_default_bodies : Coset.Gen.defaultBodies = Coset.Pinned.defaultBodies := Coset.Ties.default_bodies
-
-#print axioms tie_serializable_impls
-#print axioms tie_default_bodies
 #print axioms suffix
 #print axioms suffix_tagged
 #print axioms suffix_of_isOk
